@@ -25,8 +25,13 @@ def oracle_storage_kinds(seed, tier):
     return oracle_storage.check(seed, tier)
 
 
+def corr_product_cache_first(seed, tier):
+    import corr_product_cached
+    return corr_product_cached.check(seed, tier)
+
+
 def checks(tier):
-    return [corr_flow,corr_codec, oracle_c10, oracle_storage_kinds]
+    return [corr_flow,corr_codec, oracle_c10, oracle_storage_kinds, corr_product_cache_first]
 
 
 def replay(payload):
